@@ -39,3 +39,16 @@ impl maybenot::time::Instant for VInstant {
         VDur(self.0.saturating_sub(earlier.0))
     }
 }
+
+/// A second virtual clock, in whole **nanoseconds**, whose duration type is `std::time::Duration`:
+/// it exercises the crate's own `Duration` implementation (the one every integrator using
+/// `std::time::Instant` gets) with generated, replayable time values.
+#[derive(Clone, Copy, Debug, PartialEq, Eq, PartialOrd, Ord, Hash)]
+pub struct NInstant(pub u64);
+
+impl maybenot::time::Instant for NInstant {
+    type Duration = std::time::Duration;
+    fn saturating_duration_since(&self, earlier: Self) -> std::time::Duration {
+        std::time::Duration::from_nanos(self.0.saturating_sub(earlier.0))
+    }
+}
